@@ -224,6 +224,11 @@ func checkC10Bind(c *Ctx, n int) {
 			if len(subNames) > 0 && r.Intn(4) == 0 && (j < len(args) || lastIsSlice) && stringly {
 				words[j] = subNames[r.Intn(len(subNames))]
 			}
+			// a word written like a quoted literal (or merely beginning with a quote) is taken verbatim: a
+			// positional value is never unquoted
+			if (recv == "str" || recv == "Lstr") && r.Intn(5) == 0 {
+				words[j] = []string{"\"" + words[j] + "\"", "\"" + words[j], "\"a b\"", "\"\""}[r.Intn(4)]
+			}
 			// after the terminator anything is a word, option-looking ones included
 			if terminatorAt >= 0 && j >= terminatorAt && r.Intn(3) == 0 {
 				words[j] = "-" + words[j]
